@@ -342,6 +342,9 @@ func randValue(rng *rand.Rand, t reflect.Type, depth int, tag string) reflect.Va
 		if depth > 0 && n > 5 {
 			n = rng.Intn(4)
 		}
+		if depth > 3 {
+			n = 0 // end of a self-referential tree
+		}
 		if n == 0 && rng.Intn(2) == 0 {
 			return v // nil slice
 		}
@@ -362,7 +365,10 @@ func randValue(rng *rand.Rand, t reflect.Type, depth int, tag string) reflect.Va
 		// a nil pointer encodes as the empty value of its kind; it decodes back
 		// only where that empty value is a legal encoding of the element type
 		ek := t.Elem().Kind()
-		nilable := tag == "nil" || ek == reflect.Uint64 || ek == reflect.Slice
+		nilable := tag == "nil" || ek == reflect.Uint64 || ek == reflect.Slice || ek == reflect.Bool || ek == reflect.String
+		if tag == "nil" && depth > 4 {
+			return v // end of a self-referential chain
+		}
 		if nilable && rng.Intn(4) == 0 {
 			return v
 		}
